@@ -4,7 +4,7 @@ import copy
 import json
 
 from harness import core, project as P
-from harness.common import pmap, build
+from harness.common import pmap, build, via
 
 core.import_scoda()
 from scoda.elements.bar import Bar  # noqa: E402
@@ -26,7 +26,7 @@ def ctor(case):
     line = {"kind": "ctor", "num": c["num"], "den": c["den"], "key": key or "", "in": [], "raised": "", "out": [],
             "outAbs": [], "copyOut": [], "copyNum": -1, "copyDen": -1, "copyKey": "", "copyRaised": "", "copyEquals": False,
             "case": {"c": c, "key": key}}
-    seq = build(c, "abs" if idx % 2 == 0 else "rel")
+    seq = build(c, via(idx))
     line["in"] = P.raw_rel(seq)
     try:
         bar = Bar(seq, c["num"], c["den"], Key(key) if key else None)
@@ -71,7 +71,7 @@ def split_bars(case):
     line = {"kind": "split", "metaIdx": meta_idx + 1, "qnl": qnl, "tracks": [], "tracksAfter": [], "absBefore": [],
             "absAfter": [], "bars": [], "raised": "", "case": {"tracks": tracks, "metaIdx": meta_idx, "qnl": qnl}}
     try:
-        seqs = [build(t, "abs" if (idx + i) % 2 == 0 else "rel") for i, t in enumerate(tracks)]
+        seqs = [build(t, via(idx + i)) for i, t in enumerate(tracks)]
         line["tracks"] = [P.raw_rel(s) for s in seqs]
         line["absBefore"] = [P.raw_abs(s) for s in seqs]
         out = Sequence.sequences_split_bars(seqs, meta_track_index=meta_idx, quantise_note_lengths=qnl)
